@@ -293,10 +293,29 @@ fn apply(w: &mut World, op: &Op) -> Option<String> {
                             // "the request behaves according to these values": what goes on the wire is, field for
                             // field and value for value, what the prepared request holds (seed C16-seed8: equal
                             // values appended twice are two field lines)
-                            let log = crate::resp::install_script(vec![crate::script::Seg::Data(b"HTTP/1.1 204 No Content\r\n\r\n".to_vec())]);
-                            let _ = std::panic::catch_unwind(std::panic::AssertUnwindSafe(|| p.send().map(|_| ())));
-                            attohttpc::verif_hooks::clear_dial_factory();
-                            let written = log.lock().unwrap().written.clone();
+                            // The request is sent twice, each time through a redirect to ANOTHER origin (when its
+                            // settings follow redirects): every connection of both sends carries the caller's fields
+                            // as prepared (seed C16-seed9: credentials stripped on a cross-origin redirect, for good).
+                            let scripts: Vec<Vec<crate::script::Seg>> = vec![
+                                vec![crate::script::Seg::Data(b"HTTP/1.1 302 Found\r\nLocation: http://other.test:8080/elsewhere\r\nContent-Length: 0\r\n\r\n".to_vec())],
+                                vec![crate::script::Seg::Data(b"HTTP/1.1 204 No Content\r\n\r\n".to_vec())],
+                            ];
+                            let mut writtens: Vec<Vec<u8>> = vec![];
+                            for _send in 0..2 {
+                                let logs: Arc<Mutex<Vec<Arc<Mutex<crate::script::Log>>>>> = Arc::new(Mutex::new(vec![]));
+                                let (l2, sc) = (logs.clone(), scripts.clone());
+                                attohttpc::verif_hooks::set_dial_factory(Box::new(move |_info| {
+                                    let mut l = l2.lock().unwrap();
+                                    let (script, log) = crate::script::Script::new(sc.get(l.len()).cloned().unwrap_or_default());
+                                    l.push(log);
+                                    Some(Ok(Box::new(script) as Box<dyn attohttpc::verif_hooks::Transport>))
+                                }));
+                                let _ = std::panic::catch_unwind(std::panic::AssertUnwindSafe(|| p.send().map(|_| ())));
+                                attohttpc::verif_hooks::clear_dial_factory();
+                                for log in logs.lock().unwrap().iter() {
+                                    writtens.push(log.lock().unwrap().written.clone());
+                                }
+                            }
                             let trim = |v: &[u8]| -> Vec<u8> {
                                 let mut a = 0;
                                 let mut b = v.len();
@@ -308,26 +327,33 @@ fn apply(w: &mut World, op: &Op) -> Option<String> {
                                 }
                                 v[a..b].to_vec()
                             };
-                            let wire = match crate::spec::parse_request(&written) {
-                                Err(e) => format!("unparsable({})", e),
-                                Ok(pr) => {
-                                    let mut bad = String::new();
-                                    let mut names: Vec<&String> = ph.iter().map(|(n, _)| n).collect();
-                                    names.dedup();
-                                    for n in names {
-                                        if n == "host" {
-                                            continue; // set per connection by send()
-                                        }
-                                        let held: Vec<Vec<u8>> = ph.iter().filter(|(k, _)| k == n).map(|(_, v)| trim(v)).collect();
-                                        let sent: Vec<Vec<u8>> = pr.headers.iter().filter(|(k, _)| k == n).map(|(_, v)| trim(v)).collect();
-                                        if held != sent {
-                                            bad = format!("differs({}:held={}:sent={})", n, held.len(), sent.len());
-                                            break;
+                            let mut wire = "ok".to_string();
+                            if writtens.is_empty() {
+                                wire = "nothing-sent".to_string();
+                            }
+                            'conn: for (ci, written) in writtens.iter().enumerate() {
+                                match crate::spec::parse_request(written) {
+                                    Err(e) => {
+                                        wire = format!("unparsable(connection{}:{})", ci, e);
+                                        break 'conn;
+                                    }
+                                    Ok(pr) => {
+                                        let mut names: Vec<&String> = ph.iter().map(|(n, _)| n).collect();
+                                        names.dedup();
+                                        for n in names {
+                                            if n == "host" {
+                                                continue; // set per connection by send()
+                                            }
+                                            let held: Vec<Vec<u8>> = ph.iter().filter(|(k, _)| k == n).map(|(_, v)| trim(v)).collect();
+                                            let sent: Vec<Vec<u8>> = pr.headers.iter().filter(|(k, _)| k == n).map(|(_, v)| trim(v)).collect();
+                                            if held != sent {
+                                                wire = format!("differs(connection{}:{}:held={}:sent={})", ci, n, held.len(), sent.len());
+                                                break 'conn;
+                                            }
                                         }
                                     }
-                                    if bad.is_empty() { "ok".to_string() } else { bad }
                                 }
-                            };
+                            }
                             format!("{};prep={};wire={}", snap, canon_headers(&ph), wire)
                         }
                         Err(_) => format!("{};prep=e", snap),
@@ -479,7 +505,7 @@ fn spec_run(ops: &[Op]) -> Vec<String> {
 fn gen_ops(rng: &mut Rng, len: usize, observe_all_at_end: bool) -> Vec<Op> {
     let mut ns = 0usize;
     let mut nb = 0usize;
-    let names = ["x-a", "x-b", "accept", "user-agent", "accept", "user-agent", "range", "accept-encoding", "connection", "content-length", "te", "if-range"];
+    let names = ["x-a", "x-b", "accept", "user-agent", "accept", "user-agent", "range", "accept-encoding", "connection", "content-length", "te", "if-range", "authorization", "cookie", "proxy-authorization"];
     let mut ops = vec![Op::NewSession];
     ns += 1;
     for _ in 0..len {
